@@ -771,8 +771,6 @@ func roundtripCase(cs *fw.Case, f *family, p, q []float64, xs []float64) {
 			fail("clone", fmt.Sprintf("ScalarType of the clone is %v, expected %v", c.ScalarType(), ty.t))
 		}
 		// the clone is a different object: re-parametrising it leaves the original alone
-		arg2 := vec(ty.t, floats(e.GetParameters()))
-		_ = arg2
 		if pn := fw.Call(func() { serr = c.SetParameters(vec(ty.t, floatsOf(f, ty.t, q))) }); pn == nil && serr == nil {
 			for i, x := range xs {
 				if v := evalLP(d, ty.t, x); v != ref[i] {
